@@ -306,8 +306,8 @@ def run(ctx):
                 descr.append({"config": cfg, "schedule": s2, "kind": "corpus " + fn})
 
     # 2. seeded random walks to quiescence
-    nconf = 260 if not ctx.thorough else 2500
-    per = 6 if not ctx.thorough else 10
+    nconf = 170 if not ctx.thorough else 2500
+    per = 5 if not ctx.thorough else 10
     for _ in range(nconf):
         cfg = gen_config(rng)
         for _ in range(per):
@@ -320,14 +320,14 @@ def run(ctx):
     ctx.sample({"config": descr[-1]["config"], "schedule": descr[-1]["schedule"]})
 
     # 3. exhaustive exploration of small configurations
-    t_end = time.time() + (35 if not ctx.thorough else 420)
+    t_end = time.time() + (18 if not ctx.thorough else 420)
     confs = small_configs()
     if ctx.thorough:
         confs += [gen_config(rng) for _ in range(40)]
     nedges = 0
     for ci, cfg in enumerate(confs):
         share = time.time() + max(2.0, (t_end - time.time()) / max(1, len(confs) - ci))
-        for sch, r, last in explore(cfg, mod, stub, 4000 if not ctx.thorough else 60000, 40, min(share, t_end)):
+        for sch, r, last in explore(cfg, mod, stub, 2500 if not ctx.thorough else 60000, 40, min(share, t_end)):
             nedges += 1
             note_run(cfg, sch, r)
             if not r.final_ready:
